@@ -116,6 +116,13 @@ Nested1 ==
          : g \in GoTypes}
 
 FirstShape(r, gob) == CHOOSE sh \in Shapes(r.k, r.t, FALSE, gob) : TRUE
+
+\* embedded objects without id and type whose ONLY property is r (in a single-item position and in a list)
+UntypedOne(gob) ==
+  UNION {{ Case("untyped", "Object", r.t, "untyped-in-item", With(BaseV("Object", 2), "attachment", Obj("Object", [x \in {r.t} |-> FirstShape(r, gob)[2]]))),
+           Case("untyped", "Object", r.t, "untyped-in-list",
+                With(BaseV("Object", 2), "tag", ListOf(<<I1, Obj("Object", [x \in {r.t} |-> FirstShape(r, gob)[2]])>>))) }
+         : r \in OwnRows("Object")}
 Pairwise(G, gob) ==
   UNION {{Case("pair", g, r1.t \o "+" \o r2.t, "pair",
                With(With(BaseV(g, 3), r1.t, FirstShape(r1, gob)[2]), r2.t, FirstShape(r2, gob)[2]))
